@@ -87,11 +87,15 @@ def rules():
 def benign():
     out = ["| refactoring | kind | what | checks run | result |", "|---|---|---|---|---|"]
     res = {}
+    first = {}
     if os.path.exists('/verif/benign/results.txt'):
         for l in open('/verif/benign/results.txt'):
             m = re.match(r'(\S+): alarms=(\d+)', l.strip())
             if m:
                 res[m.group(1)] = int(m.group(2))
+            m = re.match(r'# first run: (\S+) alarms=(\d+)', l.strip())
+            if m:
+                first[m.group(1)] = int(m.group(2))
     for d in sorted(glob.glob('/verif/benign/C*')):
         pid = os.path.basename(d)
         meta = json.load(open(d + '/meta.json')) if os.path.exists(d + '/meta.json') else []
@@ -100,6 +104,7 @@ def benign():
             k = "%s/%s" % (pid, f)
             r = res.get(k)
             out.append("| `benign/%s` | %s | %s | all 27 | %s |" % (k, (e.get("kind") or "")[:60].replace('|', '/'), (e.get("what") or "")[:260].replace('|', '/').replace('\n', ' '),
+                                                              ("silent after the rule was corrected (first run: %d check(s) alarmed — see text)" % first[k]) if k in first and r == 0 else
                                                               "silent" if r == 0 else ("pending" if r is None else "%d alarm(s) — see text" % r)))
     return "\n".join(out)
 
